@@ -1494,7 +1494,7 @@ def gen_ctor_cases(rng, thorough):
         elif r < 0.35:
             v = {'k': 'none'}
         a = {'value': v, 'type': t, 'is_array': rng.choice([None, None, True, False]) if kind != 'CIMQualifier' else None,
-             'emb': rng.choice([None, None, None, False, 'instance', 'object', 'foo']) if kind in ('CIMProperty', 'CIMParameter') else None,
+             'emb': rng.choice([None, None, None, False, 'instance', 'object', 'foo', '', 0]) if kind in ('CIMProperty', 'CIMParameter') else None,
              'refclass': (rng.random() < 0.15) if kind == 'CIMProperty' else False}
         vals = []
         for _i in range(rng.choice([0, 0, 1, 2, 3])):
